@@ -96,9 +96,11 @@ int main(int argc, char** argv) {
         if (getenv("VERIF_TRACE")) { fprintf(stderr, "TRACE %s\n", cur.c_str()); fflush(stderr); }
         const Function& df = b.f->diff();
         string ddag = dump_fun(df);
+        EMIT("diffnf %s %s %d => 1\n", b.dag.c_str(), ddag.c_str(), b.nvar);
         for (int k = 0; k < 4; k++) { Vector p(b.nvar); for (int i = 0; i < b.nvar; i++) p[i] = dyadic(r); EMIT("diffpt %s %s %s => 1\n", b.dag.c_str(), ddag.c_str(), ptok(p).c_str()); }
         if (b.rows * b.cols == 1 && r.coin(50)) { // second order: jacobian of the gradient
           const Function& ddf = df.diff(); string d2 = dump_fun(ddf);
+          EMIT("diffnf %s %s %d => 1\n", ddag.c_str(), d2.c_str(), b.nvar);
           for (int k = 0; k < 2; k++) { Vector p(b.nvar); for (int i = 0; i < b.nvar; i++) p[i] = dyadic(r); EMIT("diffpt %s %s %s => 1\n", ddag.c_str(), d2.c_str(), ptok(p).c_str()); }
         }
       } else if (wl == "c11") {
@@ -107,7 +109,7 @@ int main(int argc, char** argv) {
         Function& f = *b.f;
         cur = b.dag;
         auto trace = [&](const char* what) { if (getenv("VERIF_TRACE")) { fprintf(stderr, "TRACE %s %s\n", what, cur.c_str()); fflush(stderr); } };
-        auto pts = [&](const char* kind, const string& d1, const string& d2) { for (int k = 0; k < 3; k++) { Vector p(b.nvar); for (int i = 0; i < b.nvar; i++) p[i] = dyadic(r); EMIT("equivpt %s %s %s %s => 1\n", kind, d1.c_str(), d2.c_str(), ptok(p).c_str()); } };
+        auto pts = [&](const char* kind, const string& d1, const string& d2) { EMIT("equivnf %s %s %s %d => 1\n", kind, d1.c_str(), d2.c_str(), b.nvar); for (int k = 0; k < 3; k++) { Vector p(b.nvar); for (int i = 0; i < b.nvar; i++) p[i] = dyadic(r); EMIT("equivpt %s %s %s %s => 1\n", kind, d1.c_str(), d2.c_str(), ptok(p).c_str()); } };
         // simplification at each level, on a copy
         for (int level = 1; level <= 3; level++) {
           Array<const ExprSymbol> a2(f.nb_arg()); for (int i = 0; i < f.nb_arg(); i++) a2.set_ref(i, ExprSymbol::new_(f.arg(i).name, f.arg(i).dim));
@@ -128,6 +130,7 @@ int main(int argc, char** argv) {
         int m = b.rows * b.cols;
         trace("comp");
         if (m > 1 && (b.rows == 1 || b.cols == 1)) { int i = r.below(m); Function& fi = f[i]; string d2 = dump_fun(fi);
+          EMIT("equivcompnf %s %s %d %d => 1\n", b.dag.c_str(), d2.c_str(), i, b.nvar);
           for (int k = 0; k < 3; k++) { Vector p(b.nvar); for (int q = 0; q < b.nvar; q++) p[q] = dyadic(r); EMIT("equivcomp %s %s %d %s => 1\n", b.dag.c_str(), d2.c_str(), i, ptok(p).c_str()); } }
       } else { fprintf(stderr, "unknown workload\n"); return 2; }
     } catch (ExprDiffException& e) { EMIT("diffunsupported x => 0\n"); }
